@@ -41,6 +41,27 @@ def _reads(o):
     return [e for e in o.effects if e.name == "recv_strict"]
 
 
+def flag_decided_by(run, byte_term, mask, value):
+    """A one-bit field that became a constant on this path (by `1 if b & m else 0`, bool(...), or a truthiness test on the
+    bit-field term): find the fact that decided it -- a term reading exactly (byte & mask) -- and compare zero-ness.
+    None when no such deciding fact exists (the constant then comes from elsewhere and is not judged here)."""
+    res = None
+    for k, fk in run.facts.items():
+        t = run.fact_terms.get(k)
+        if t is None or isinstance(t, C):
+            continue
+        decisive = fk.eq is not None or fk.truth is not None or 0 in fk.excl or fk.hi == 0 or fk.lo > 0
+        if not decisive:
+            continue
+        fb = field_bits(t)
+        if fb is None or fb[0].key() != byte_term.key() or fb[1] != mask:
+            continue
+        zero = (fk.eq is not None and isinstance(fk.eq, C) and fk.eq.v == 0) or fk.truth is False or fk.hi == 0
+        ok = (zero == (value == 0))
+        res = ok if res is None else (res and ok)
+    return res
+
+
 def _hdr_byte(o, which):
     """term of the first (1) / second (0) byte of the first read"""
     r = _reads(o)
@@ -67,6 +88,11 @@ def r1(ctx):
         for name, (which, mask, shift) in want.items():
             t = f.get(name)
             fb = field_bits(t) if t is not None else None
+            if isinstance(t, C) and isinstance(t.v, int) and mask in (0x80, 0x40, 0x20, 0x10):
+                hit = flag_decided_by(o.run, b[which], mask, t.v)
+                if hit is not None:
+                    got.setdefault(name, []).append((hit, t, o))
+                continue
             if fb is None or isinstance(t, C):
                 # already decided on this path (bound by a guard): nothing to read off
                 continue
@@ -95,7 +121,7 @@ def r1(ctx):
         if f is None:
             continue
         ln = r[-1].args[0]
-        if isinstance(ln, App) and ln.op == "unpacked":
+        if isinstance(ln, App) and ln.op in ("beint", "leint", "unpacked"):
             continue
         cnt += 1
         fb = field_bits(ln)
@@ -114,6 +140,10 @@ def r2(ctx):
     I, outs = _leaves(ctx)
     loc = ctx.index.loc(ctx.index.func(Q).node)
     classes = {"7bit": [], "16bit": [], "64bit": []}
+    crashes = [o for o in outs if o.kind == "raise" and not (o.exc_class or "").startswith("_exceptions:")]
+    ctx.ob(f"{Q}:decoding-does-not-crash", not crashes, "every path either builds a frame or refuses it with a WebSocket exception" if not crashes else
+           f"decoding a frame ends in {crashes[0].exc_class} ({crashes[0].note or 'raised while reading the header / length'}): the bytes read do not match what is decoded from them",
+           crashes[0].raise_loc if crashes else loc, {"path": path_text(crashes[0])} if crashes else None)
     for o in outs:
         f = _frame(o)
         if f is None:
@@ -146,12 +176,9 @@ def r2(ctx):
         unp = [e for e in o.effects if e.name == "struct.unpack"]
         if kind == "7bit":
             fb = field_bits(payload_len) if payload_len is not None and not isinstance(payload_len, C) else None
-            ok = ok and (isinstance(payload_len, C) or (fb is not None and fb[0].key() == b2.key() and fb[1] == 0x7F)) and not unp
+            ok = ok and (isinstance(payload_len, C) or (fb is not None and fb[0].key() == b2.key() and fb[1] == 0x7F))
         else:
-            fmt = "!H" if kind == "16bit" else "!Q"
-            ok = ok and len(unp) == 1 and unp[0].args[0] in (C(fmt), C(fmt.replace("!", ">"))) \
-                and unp[0].args[1].key() == reads[1].ret.key() \
-                and isinstance(payload_len, App) and payload_len.op == "unpacked" and payload_len.args[1].key() == reads[1].ret.key()
+            ok = ok and isinstance(payload_len, App) and payload_len.op == "beint" and payload_len.args[0].key() == reads[1].ret.key()
         # the payload handed to the frame is the last read (unmasked with the key read, iff masked)
         data = f.get("data")
         if masked.lo == masked.hi == 1:
@@ -211,6 +238,12 @@ def r5(ctx):
             def is_shortage(t):
                 return isinstance(t, App) and t.op == "-" and "<n>" in repr(t)
             okr = (isinstance(a, App) and a.op == "min" and any(isinstance(x, C) for x in a.args) and any(is_shortage(x) for x in a.args)) or is_shortage(a)
+            if not okr and isinstance(a, C) and isinstance(a.v, int):
+                # an explicit clamp: a constant is requested on a path where the bytes missing are known to be at least that many
+                for k, fk in o.run.facts.items():
+                    t = o.run.fact_terms.get(k)
+                    if t is not None and is_shortage(t) and fk.lo >= a.v:
+                        okr = True
             if not okr:
                 bad_req.append((a, o))
         if o.kind != "return":
@@ -270,7 +303,16 @@ def r6(ctx):
             ctx.ob(f"_abnf:frame_buffer.has_mask:{i}", False, f"{o.kind} {o.exc_class}", o.raise_loc)
             continue
         hdr, hm = o.value.items
-        fb = field_bits(hm) if not isinstance(hm, C) else None
+        if isinstance(hm, C):
+            reads = [e for e in o.effects if e.name == "recv_strict"]
+            from ..transfer import be16_of
+            b2 = App("byte", (be16_of(o.run, reads[0].ret), C(0)), "int") if reads else None
+            d = flag_decided_by(o.run, b2, 0x80, int(bool(hm.v))) if b2 is not None else None
+            if d is None:
+                continue  # decided elsewhere: not judged here
+            ctx.ob(f"_abnf:frame_buffer.has_mask:reads-mask-bit:{i}", d, f"has_mask() = {hm!r} decided by (byte2 & 0x80)", loc)
+            continue
+        fb = field_bits(hm)
         ok = fb is not None and fb[1] == 0x80 and fb[2] == 7
         ctx.ob(f"_abnf:frame_buffer.has_mask:reads-mask-bit:{i}", ok, f"has_mask() = {hm!r}", loc)
     # recv_length reads the length bits of the stored header
@@ -285,7 +327,7 @@ def r6(ctx):
     for o in outs2:
         if o.kind == "return" and not isinstance(o.value, C):
             v = o.value
-            if isinstance(v, App) and v.op == "unpacked":
+            if isinstance(v, App) and v.op == "beint":
                 okk += 1
                 continue
             fb = field_bits(v)
